@@ -51,9 +51,9 @@ package app
 // rely condition; Next and Abort themselves are proved to satisfy it (their ensures clauses).
 // Assumed, listed: a handler does not call SetHandlers/Reset on the live context.
 //@ funcvalue app.HandlerFunc(c, ctx)
-//@   requires chainInv(ctx)
+//@   requires @C12 chainInv(ctx)
 //@   modifies *, ctx.hi, ctx.aborted
-//@   ensures chainInv(ctx) && ctx.hi >= old(ctx.hi) && (old(ctx.aborted) ==> ctx.aborted) && sameSlice(ctx.handlers, old(ctx.handlers))
+//@   ensures @C12 chainInv(ctx) && ctx.hi >= old(ctx.hi) && (old(ctx.aborted) ==> ctx.aborted) && sameSlice(ctx.handlers, old(ctx.handlers))
 
 //@ func RequestContext.Next(ctx, c)
 //@   props C12
@@ -105,3 +105,44 @@ package app
 //@   modifies *
 //@   panics
 //@   top-ensures r.r == r.f
+
+// Applying a range to the readers: the big-file reader seeks to the start and limits itself to exactly
+// endPos - startPos + 1 bytes of the file; the small-file reader serves [startPos, endPos].
+//@ func bigFileReader.UpdateByteRange(r, startPos, endPos) err
+//@   props C08
+//@   requires r != nil && r.f != nil && 0 <= startPos && startPos <= endPos && endPos < 4611686018427387904
+//@   modifies r._all
+//@   assert before Seek: arg1 == startPos && arg2 == 0
+//@   top-ensures err == nil ==> r.lr.N == endPos - startPos + 1 && r.lr.R == r.f
+
+//@ func fsSmallFileReader.UpdateByteRange(r, startPos, endPos) err
+//@   props C08
+//@   requires r != nil && endPos < 4611686018427387904
+//@   modifies r.startPos, r.endPos
+//@   top-ensures err == nil && r.startPos == startPos && r.endPos == endPos + 1
+
+// handleRequest, the range part (typestate): the reader, the Content-Range header and the announced body length
+// all use the pair that ParseByteRange returned without error for this file's length.
+//@ ghost var rgOK bool
+//@ ghost var rgStart int
+//@ ghost var rgEnd int
+//@ ghost var rgLen int
+//@ ghost var rgApplied bool
+//@ func fsHandler.handleRequest(h, c, ctx)
+//@   props C08
+//@   abstract
+//@   noinline
+//@   panics
+//@   modifies rgOK, rgStart, rgEnd, rgLen, rgApplied
+//@   ghostset-at-entry rgOK = false
+//@   ghostset-at-entry rgApplied = false
+//@   ghostset before ParseByteRange: rgLen = arg1
+//@   ghostset after ParseByteRange: rgOK = (result2 == nil)
+//@   ghostset after ParseByteRange: rgStart = result0
+//@   ghostset after ParseByteRange: rgEnd = result1
+//@   assert before UpdateByteRange: rgOK && arg1 == rgStart && arg2 == rgEnd
+//@   assert before ResponseHeader.SetContentRange: rgOK && arg1 == rgStart && arg2 == rgEnd && arg3 == rgLen
+//@   ghostset after ResponseHeader.SetContentRange: rgApplied = true
+//@   assert before SetBodyStream: rgApplied && 0 <= rgStart && rgStart <= rgEnd && rgEnd < 4611686018427387904 ==> arg2 == rgEnd - rgStart + 1
+//@   assert before ResponseHeader.SetContentLength: rgApplied && 0 <= rgStart && rgStart <= rgEnd && rgEnd < 4611686018427387904 ==> arg1 == rgEnd - rgStart + 1
+
